@@ -122,6 +122,34 @@ K("O14.3la", ["C14", "C13"], "builtins", "c14_length_array", level="bounded", bo
   desc="lengte(array) is the number of elements")
 
 # ---------------------------------------------------------------------------------------------
+# C02 / C12 / C10 / C11 (VM side): helpers (Kani on the real methods) and dispatch arms (Verus, sliced)
+# ---------------------------------------------------------------------------------------------
+_VMP = ["C02", "C05"]
+K("O02.h1", _VMP, "vm", "c02_read_u8", functions=["VM::read_u8"], level="bounded", bound="code of 4 symbolic bytes, every ip",
+  desc="requires ip < len: value == code[ip], ip' == ip+1, nothing else changes (contract assumed by the Verus arm units)")
+K("O02.h2", _VMP + ["C11"], "vm", "c02_read_u16", functions=["VM::read_u16"], level="bounded", bound="code of 4 symbolic bytes, every ip",
+  desc="requires ip+2 <= len: value == code[ip] + 256*code[ip+1], ip' == ip+2 (inverse of emit_u16)")
+K("O02.h3", _VMP, "vm", "c02_pop", functions=["VM::pop"], level="bounded", bound="stacks of 1..3 symbolic immediates",
+  desc="requires non-empty stack: returns and removes the top element, rest untouched")
+K("O02.h4", _VMP, "vm", "c02_next", functions=["VM::next", "OpCode::from"], desc="every valid opcode byte decodes to the opcode with that discriminant")
+K("O02.cast", _VMP + ["C12"], "vm", "c02_cast_contracts", functions=["VM::run (casts)"], desc="R3 cast helpers of the VM units hold for all values")
+K("O02.op", _VMP, "compiler", "c02_opcode_roundtrip", functions=["OpCode::from"], desc="OpCode::from total on 0..=44, inverse of `as u8`")
+K("O02.ops", _VMP, "compiler", "c02_operand_widths", functions=["OpCode::operands"], desc="recorded operand widths == bytes consumed by the machine's arm, for all 45 opcodes")
+K("O02.emit", _VMP + ["C11"], "compiler", "c02_emit", functions=["Compiler::emit_u16", "Compiler::emit_u8", "Compiler::emit_opcode"], level="bounded", bound="2 pre-existing symbolic bytes",
+  desc="emit_u16 appends low byte then high byte; earlier bytes unchanged; emit_opcode records last_instruction")
+K("O11.patch", ["C11", "C02"], "compiler", "c11_change_jump_operand", functions=["Compiler::change_jump_operand_at"], level="bounded", bound="code of 6 symbolic bytes, every idx",
+  desc="writes exactly bytes idx+1, idx+2 of a jump; no other byte changes")
+V("O02.helpers", ["C02", "C12", "C05"], "c02_helpers", expect_verified=7,
+  functions=["Frame::new", "VM::get_local", "VM::set_local", "VM::jump", "VM::push", "VM::popframe", "VM::pushframe"],
+  desc="verbatim bodies: slot access in bounds under the stated precondition; popframe cuts the stack to the popped base and restores the caller's ip/bp; pushframe saves the return address; frames below untouched")
+V("O12.arms", ["C12", "C02", "C03", "C05"], "c12_calls", expect_verified=3,
+  functions=["VM::run arm Call", "VM::run arm ReturnValue", "VM::run arm Return"],
+  desc="Call: base = len-1-argc, args in place, remaining locals null, callee word gone, one frame pushed with the return address, everything below base unchanged, non-function -> TypeError, argc > slots or base > 65535 -> ArgumentError. Return(Value): stack == caller's stack ++ [result], frame popped, ip/bp restored, collector roots cover stack, constants, globals, last value and the returned value")
+V("O02.arms", ["C02", "C10", "C11", "C06", "C14", "C13", "C05", "C04"], "c02_arms", expect_verified=42,
+  functions=["VM::run arms: Const SetGlobal GetGlobal SetLocal GetLocal Jump JumpIfFalse Pop Null True False Add..Or (13) Not Negate CallBuiltin *LocalConst (11) Array IndexGet IndexSet Halt"],
+  desc="42 arms, each: operands read from inside the code, stack delta stated over the whole old stack, operand ORDER of every binary / fused operator (left = lower slot / local, right = top / constant), jump targets, type errors of Not/Negate/JumpIfFalse, GetGlobal of an unset slot is a ReferenceError, Halt untraces the result")
+
+# ---------------------------------------------------------------------------------------------
 # per-property information for the evidence files
 # ---------------------------------------------------------------------------------------------
 NOT_APPLICABLE = {
@@ -130,6 +158,22 @@ NOT_APPLICABLE = {
 }
 
 PROPERTIES = {
+    "C12": {
+        "level": "proof",
+        "claim": "Per-arm contracts, verified by Verus on the arms of VM::run sliced verbatim from src/vm.rs for stacks / frame stacks of EVERY size: Call binds arguments by position in a fresh activation whose other slots are null and leaves everything below the base untouched; Return/ReturnValue hand back exactly the caller's stack plus the result and restore the caller's ip/bp. Function descriptors round-trip for all (u32,u16) (Kani).",
+        "note": "Trusted: Verus/Z3; helper contracts read_u8/pop (proved by Kani on the real methods, bounded code/stack size), extraction rules R1,R2,R3,R4,R7,R10. NOT decided: that the compiler emits argument code left to right and an argc equal to the argument count (compiler arm Expr::Call), and the composition over whole programs (recursion depth, nested calls) - argued from the arm contracts, not verified.",
+        "design_ref": "DESIGN.md 3.6",
+        "undecided": ["compiler arm Expr::Call (argument order, argc)", "composition of arm contracts over all call sequences (step lemma)"],
+        "assumptions": ["arm preconditions (operands on the stack, operand bytes inside the code) hold at every step: the compile-side half of C02"],
+    },
+    "C02": {
+        "level": "proof",
+        "claim": "VM side of memory safety: every one of the 45 dispatch arms, sliced verbatim, is verified (Verus, unbounded) to read its operand bytes inside the code, to pop only what its precondition says is there, to index constants/locals/globals in range, and to move ip by exactly the operand width the compiler records; the unchecked helpers read_u8/read_u16/pop/next and OpCode::from meet those contracts on the real code (Kani). So the unchecked fast paths are safe for every bytecode that satisfies the arm preconditions.",
+        "note": "Trusted: Verus/Z3, Kani/CBMC, extraction rules. NOT decided (explicit assumption): that compile_ast emits bytecode satisfying the arm preconditions at every step for every AST (stack typing through compile_expression, the remove_last_instruction peephole).",
+        "design_ref": "DESIGN.md 3.5",
+        "undecided": ["compile_ast emits typed bytecode for every AST (compiler half of the property)", "induction over steps (step lemma) is an argument over the arm contracts, not a verified loop"],
+        "assumptions": ["arm preconditions hold at every step"],
+    },
     "C14": {
         "level": "proof",
         "claim": "For ALL argument words: wrong arity is an ArgumentError for every builtin but print; bool/int/float conversions of null, bool, int, float (all 2^64 payloads), array, function are the documented value or the documented error, converting a value to its own type returns the very same word, int(float) truncates toward zero and never wraps; dispatch byte <-> builtin is total on 0..=6. Proved by loop-free Kani harnesses on the real builtins.rs with heap reads replaced by their contracts.",
